@@ -786,7 +786,8 @@ class H2Connection:
             stream_id, AllowedStreamIDs(self.config.client_side)
         )
         frames = stream.send_headers(
-            headers, self.encoder, end_stream
+            headers, self.encoder, end_stream,
+            reserved_bytes=5 if priority_present else 0
         )
 
         if priority_present:
